@@ -166,3 +166,41 @@ Definition m_n_labels (n k : Z) : Z := n ^ k.                          (* number
 Definition m_min_n_kmers (W k : Z) : Z := W - k + 1.                   (* k-mers inside a minimizer window *)
 Definition m_min_window (n_kmers k : Z) : Z := n_kmers + k - 1.        (* window of the outer roller *)
 Definition m_pwm_acc_len (size offset : Z) : Z := size - offset.       (* scores[:size-offset] += column[seq[offset:]] *)
+
+(* ---- equal-length sequences handed over as a dense 2-d EncodedArray.  get_kmers (encoded input),
+        get_minimizers, match_string and count_kmers keep the row structure (as_strided re-shape) and are the
+        functions above on the same rows.  Two routes at /repo HEAD do not:
+        - get_motif_scores re-wraps the flat scores only for ragged input, so a 2-d input is scored as ONE row;
+        - get_kmers on an UN-encoded 2-d array first calls change_encoding, which returns the ravelled data.
+        Both are the functions above applied to `dense_rows_pinned rows`; after notes/C13.fix-2.diff /
+        C13.fix-3.diff they are applied to `dense_rows_fixed rows`.  ONE-LINE SWITCHES: *)
+Definition dense_rows_pinned (rows : list (list Z)) : list (list Z) := [concat rows].
+Definition dense_rows_fixed (rows : list (list Z)) : list (list Z) := rows.
+Definition motif_dense_rows : list (list Z) -> list (list Z) := dense_rows_pinned.             (* fix-2 -> dense_rows_fixed *)
+Definition kmers_unencoded_dense_rows : list (list Z) -> list (list Z) := dense_rows_pinned.   (* fix-3 -> dense_rows_fixed *)
+
+(* ---- motif scores over any carrier with an addition (exact rationals Q, integers, ...): the same shifted
+        accumulation loop; the Z-valued functions above are the instance used by the correspondence *)
+Section GenericScores.
+  Context {T : Type} (zero : T) (add : T -> T -> T).
+  Definition glook (c : list T) (x : Z) : T := nth (Z.to_nat x) c zero.
+  Fixpoint gscore (cols : list (list T)) (win : list Z) : T :=
+    match cols, win with
+    | c :: cs, x :: r => add (glook c x) (gscore cs r)
+    | _, _ => zero
+    end.
+  Fixpoint gadd_prefix (a b : list T) : list T :=
+    match a, b with
+    | x :: a', y :: b' => add x y :: gadd_prefix a' b'
+    | _, _ => a
+    end.
+  Fixpoint gpwm_acc (cols : list (list T)) (seq : list Z) (scores : list T) : list T :=
+    match cols with
+    | [] => scores
+    | c :: cs => gpwm_acc cs (tl seq) (gadd_prefix scores (map (glook c) seq))
+    end.
+  Definition gmotif_flat (cols : list (list T)) (flat : list Z) : list T :=
+    gpwm_acc cols flat (repeat zero (length flat)).
+  Definition gget_motif_scores_with (stopf : Z -> option Z) (cols : list (list T)) (rows : list (list Z)) : list (list T) :=
+    rewrap_trim (stopf (len cols)) 0 (map len rows) (gmotif_flat cols (concat rows)).
+End GenericScores.
